@@ -6,7 +6,8 @@ constraint policy, a tolerance and an evaluation cap, the parameter list passed 
 subset of the function's parameters, with interval constraints containing the start, and -- for the
 convergence clause -- the minimiser), then init followed by optimize / single steps.
 The `hint` op carries what the generator knows about the objective (condition number, minimiser,
-whether the minimiser is strictly inside the constraints); the harness ignores it.
+whether the minimiser is strictly inside the constraints, for quadratics a lower bound of the smallest
+eigenvalue of Q after `lmin`); the harness ignores it.
 Three cases in ten go on with a re-use history: the same optimiser object is initialised again, one to
 three times, after any of setMaximumNumberOfEvaluations / setConstraintPolicy (keep / ignore / auto) /
 clone, with the same constraints, none, other ones or a tight box, from another start.
@@ -47,7 +48,8 @@ def rand_orth(r, n):
 
 
 def quad(r, n, dyadic=False):
-    """c + b.x + x'Qx with Q symmetric positive definite, cond <= 1e3; returns coefficients, minimiser, cond"""
+    """c + b.x + x'Qx with Q symmetric positive definite, cond <= 1e3; returns coefficients, minimiser, cond and a
+    lower bound of the smallest eigenvalue of Q (the spectrum it was built from, less rounding; Gershgorin for the dyadic ones)"""
     if dyadic:
         # small integers: diagonally dominant symmetric matrix, integer minimiser
         q = [[0.0] * n for _ in range(n)]
@@ -59,6 +61,7 @@ def quad(r, n, dyadic=False):
             q[i][i] = sum(abs(q[i][j]) for j in range(n) if j != i) + r.choice([0.5, 1, 2, 4])
         xs = [float(r.randint(-4, 4)) for _ in range(n)]
         kappa = 64.0
+        lmin = min(q[i][i] - sum(abs(q[i][j]) for j in range(n) if j != i) for i in range(n))
     else:
         kappa = 10 ** r.uniform(0, 3)
         lam = [1.0] + [kappa ** r.random() for _ in range(n - 2)] + ([kappa] if n > 1 else [])
@@ -68,10 +71,11 @@ def quad(r, n, dyadic=False):
         q = [[sum(U[k][i] * lam[k] * U[k][j] for k in range(n)) for j in range(n)] for i in range(n)]
         q = [[(q[i][j] + q[j][i]) / 2 for j in range(n)] for i in range(n)]
         xs = [r.uniform(-5, 5) for _ in range(n)]
+        lmin = min(lam) * (1 - 1e-6)
     b = [-2 * sum(q[i][j] * xs[j] for j in range(n)) for i in range(n)]
     c = r.choice([0.0, 0.0, r.uniform(-10, 10), r.uniform(1, 100)])
     coef = [c] + b + [q[i][j] for i in range(n) for j in range(n)]
-    return coef, xs, kappa
+    return coef, xs, kappa, lmin
 
 
 def d1_at(fam_s, n, coef, x, k):
@@ -94,9 +98,9 @@ def gen_case(rng, idx, tier):
         n = 1
     fam = r.choice(["quad", "quad", "quad", "quadi", "cosh", "quart", "well"])
     convex = fam != "well"
-    xs, kappa = None, 0.0
+    xs, kappa, lmin = None, 0.0, None
     if fam in ("quad", "quadi"):
-        coef, xs, kappa = quad(r, n, dyadic=(fam == "quadi"))
+        coef, xs, kappa, lmin = quad(r, n, dyadic=(fam == "quadi"))
         fam_s = "quad"
     elif fam == "cosh":
         coef, xs = [], []
@@ -237,7 +241,8 @@ def gen_case(rng, idx, tier):
     lines.append("opt %s %s %s %d %s" % (kname, pol, tol_s, mx, extra))
     # hint: cond, inside, convex, then the minimiser (or nothing)
     if xs is not None:
-        lines.append("hint %s %d %d %d %s" % (hx(kappa), int(inside), int(convex), int(full), " ".join(hx(x) for x in xs)))
+        lines.append("hint %s %d %d %d %s%s" % (hx(kappa), int(inside), int(convex), int(full), " ".join(hx(x) for x in xs),
+                                                 "" if lmin is None else " lmin " + hx(lmin)))
     else:
         lines.append("hint %s 0 0 %d" % (hx(0.0), int(full)))
     lines.append("init %d %s" % (len(sel), " ".join("%d %s %s" % (k, hx(start[k]), con_s(cons.get(k))) for k in sel)))
@@ -346,7 +351,7 @@ def gen_bracket(rng, idx):
     n = r.choice([1, 1, 2, 3])
     fam = r.choice(["quad", "cosh", "quart", "well"])
     if fam == "quad":
-        coef, xs, _ = quad(r, n)
+        coef, xs, _, _ = quad(r, n)
         fam_s = "quad"
     elif fam == "cosh":
         coef = []
@@ -395,9 +400,28 @@ def compare(op_line, impl, model):
     return " ".join(impl.split("#")[0].split()) == " ".join(model.split())
 
 
-def coverage_extra(cases, answers):
+def coverage_extra(cases, answers, model=None):
     st = {"kind": {}, "family": {}, "policy": {}, "dimension": {}, "status": {}, "tolerance_reached": {"0": 0, "1": 0},
           "evaluations_per_optimize": {}, "constrained_inits": 0}
+    # the convergence clause (explored only): how many `optimize` calls were judged, and for how many of them the
+    # bound is below the objective gap at the start (`nontrivial`) / is implied by descent alone, by kind and dimension
+    conv = {"judged": 0, "nontrivial": 0, "implied_by_descent": 0, "by_kind": {}, "by_dimension": {}, "failed_by_clause": {}}
+    for c, m in zip(cases, model or []):
+        h = c[0].split()
+        kind = h[2] if len(h) > 3 else "?"
+        dim = next((l.split()[2] for l in c if l.startswith("obj ")), "?")
+        for (_, v) in m:
+            if v.startswith("ok:conv:"):
+                w = v[len("ok:conv:"):]
+                conv["judged"] += 1
+                conv[w] = conv.get(w, 0) + 1
+                for key, d in ((kind, conv["by_kind"]), (dim, conv["by_dimension"])):
+                    e = d.setdefault(key, {"nontrivial": 0, "implied_by_descent": 0})
+                    e[w] = e.get(w, 0) + 1
+            elif v.startswith("FAIL:convergence"):
+                conv["judged"] += 1
+                conv["failed_by_clause"][v[5:]] = conv["failed_by_clause"].get(v[5:], 0) + 1
+    st["convergence_clause"] = conv
     for c, a in zip(cases, answers):
         if a is None:
             continue
